@@ -169,7 +169,7 @@ def single_op_programs(rng):
                                               {'op': 'bin', 'fn': 'mul', 'a': 6, 'b': 7}, {'op': 'setitem', 'buf': 1, 'idx': [0], 'val': 8},
                                               {'op': 'ew', 'fn': 'sin', 'a': 1}],
                   'out': 9, 'out_shape': [2]})
-    for kind in ['inv', 'solve', 'det', 'logdet', 'trace', 'qr', 'cholesky', 'eigh', 'eighQ', 'lu', 'svd', 'qr_full']:
+    for kind in ['inv', 'solve', 'det', 'logdet', 'trace', 'qr', 'cholesky', 'eigh', 'eighQ', 'lu', 'svd', 'qr_full', 'cinv', 'csolve', 'csolve_rhs', 'cexpm']:
         for n in (2, 3):
             sym = kind in ('cholesky', 'eigh', 'eighQ', 'logdet')
             perms = [list(range(n))] if sym else [list(range(n)), list(range(n))[::-1]] + ([[1, 2, 0], [2, 0, 1]] if n == 3 else [])
@@ -236,6 +236,11 @@ def single_op_programs(rng):
     for ax in (0, 1, -1, -2, None):
         progs.append({'inputs': [[2, 2]], 'steps': [{'op': 'sum', 'a': 0, 'axis': ax}], 'out': 1, 'out_shape': []})
         progs.append({'inputs': [[2, 3]], 'steps': [{'op': 'sum', 'a': 0, 'axis': ax}], 'out': 1, 'out_shape': []})
+    # an entry read through the public .flat attribute of a matrix
+    progs.append({'inputs': [[2, 2]], 'steps': [{'op': 'flatget', 'a': 0, 'i': 3}, {'op': 'getitem', 'a': 0, 'idx': [0, 0], 'bare': False},
+                                                 {'op': 'bin', 'fn': 'mul', 'a': 1, 'b': 2}], 'out': 3, 'out_shape': []})
+    progs.append({'inputs': [[2, 3]], 'steps': [{'op': 'ew', 'fn': 'sin', 'a': 0}, {'op': 'flatget', 'a': 1, 'i': 4}, {'op': 'flatget', 'a': 0, 'i': 1},
+                                                 {'op': 'bin', 'fn': 'mul', 'a': 2, 'b': 3}], 'out': 4, 'out_shape': []})
     return progs
 
 
@@ -531,8 +536,9 @@ def run(ctx):
     import ops, revchecks
     for name in revchecks.reversible_ops(for_truncation=False):
         mixed = name.endswith(':mixed')          # needs two directions (one degenerate, one regular): more cases, always P = 2
-        for k in range((6 if mixed else 2) if ctx.tier == 'quick' else 25):
-            case = ops.gen_case(rng, ctx.tier, name, P=2 if mixed else rng.choice([1, 2]), D=rng.randint(1, 3))
+        zb = name == 'pow:uai'                   # zero base points: the adjoint must not come from a quotient y / x
+        for k in range((6 if mixed or zb else 2) if ctx.tier == 'quick' else 25):
+            case = ops.gen_case(rng, ctx.tier, name, P=2 if mixed else rng.choice([1, 2]), D=rng.randint(2 if zb else 1, 3))
             case['seed'] = rng.randrange(1 << 30)
             case['superpos'] = True
             ctx.evaluations += 1
